@@ -286,6 +286,11 @@ class AdSeries:
         self.calls.append(m)
         return mat_exp_series(m), None, None
 
+    def exp_matrix_2D(self, m):
+        """the 2x2 eigen-decomposition routine by its contract (decided in C23): the matrix exponential"""
+        self.calls.append(m)
+        return mat_exp_series(m), None, None, None, None
+
 
 class AdRecorder:
     """ekore.anomalous_dimensions recording the arguments of exp_matrix_2D / exp_matrix and returning opaque results
